@@ -273,7 +273,8 @@ int main(int argc, char** argv) {
     if (D) { ns.push_back(33); ns.push_back(48); nbs.push_back(5); }      // thorough: larger grids, more bunches
     part_kick(ns, nbs);
     part_ctor(T ? std::vector<unsigned>{12, 16, 17, 32} : std::vector<unsigned>{12, 13}, T ? std::vector<unsigned>{1, 2, 3} : nbs);
-    std::vector<unsigned> fpn; if (T) for (unsigned n = 12; n <= (D ? 129u : 65u); n++) fpn.push_back(n); else fpn = {12, 16, 17};
+    std::vector<unsigned> fpn; if (T) for (unsigned n = 12; n <= (D ? 129u : 65u); n++) fpn.push_back(n);
+    for (unsigned n : {255u, 256u, 257u, 300u}) fpn.push_back(n);        // around and beyond 256 cells (8-bit indices) else fpn = {12, 16, 17};
     part_fp(fpn, T ? std::vector<int>{-3, -2, -1, 0, 1, 2, 3} : std::vector<int>{0, 2, -1});
     return R.finish();
 }
